@@ -34,7 +34,8 @@ export function loadKnownFindings() {
 // applied to it); null when the detail names no type (operation histories carry their identity in the key)
 function defaultCaseId(d) {
   if (!d || typeof d !== "object") return null;
-  const t = d.type ?? d.layout ?? null;
+  // case_id: a structural identity chosen by the explorer (alias names such as T101 shift when a family grows)
+  const t = d.case_id ?? d.type ?? d.layout ?? null;
   if (t == null) return null;
   const ctx = [d.rewrite, d.mode, d.style, d.setting, d.options].filter((x) => typeof x === "string");
   return (ctx.length ? ctx.join("/") + " | " : "") + t;
